@@ -67,6 +67,7 @@ class Problem:
         shr_dom_min = shr_dom[0]
         shr_dom_max = shr_dom[1]
         shr_dom_sz = shr_dom_max - shr_dom_min + 1
+        split_nb = min(split_nb, shr_dom_sz)  # a sub-problem cannot have an empty domain
         problems = []
         min_idx = shr_dom_min
         for split_idx in range(split_nb):
